@@ -200,7 +200,14 @@ Definition mstep (s : mstate) (kind : string) (a : list N) (data : list N) (rl :
     match res with
     | VH h => if ms_fuzzy_bytes s then (0, s)
               else let exp := map (fun i => sbyte s q (arg 1%nat + N.of_nat i)) (seq 0 (N.to_nat (arg 2%nat))) in
-                   let v := match ms_log s with Some (f, _, _) => if f =? q then 15 else 13 | None => 13 end in
+                   (* which clause a wrong byte contradicts: the log window in force -> C15; a file that backs a region of
+                      the table -> C13; a file that backs nothing (only guest writes and a dirty log can change it) while
+                      no log is in force -> something is being logged that was never accepted: C15, and C13's "bytes are
+                      the passed file's" as well *)
+                   let v := match ms_log s with
+                            | Some (f, _, _) => if f =? q then 15 else 13
+                            | None => if existsb (fun r => nth 4 r 0 =? q) (ms_table s) then 13 else 135
+                            end in
                    ((if bytes_agree exp (hex_bytes h) then 0 else v), s)
     | _ => (0, s)
     end
